@@ -8,8 +8,9 @@
          the id of a deleted last row is handed out again.  UPDATE / DELETE / SELECT-one say
          WHERE id = ? AND tag = ?; read_all(tag) says WHERE tag = ?; read_all() has no WHERE.
          Results are modelled as the Python values the methods return: create -> lastrowid,
-         update -> rowcount (ValueError when 0), delete -> None, read -> THE ROW TUPLE (b,) of the
-         first selected row (the code says `return row`, not `row[0]`) or None, read_all -> dict.
+         update -> rowcount (ValueError when 0), delete -> None, read -> column 0 of the first
+         selected row (`return row[0]`, since the repository's `fix:` commit 9d0a73d; before it the
+         row tuple itself) or None, read_all -> dict.
    (ii)  MockStorage (cloudsync/tests/fixtures/mock_storage.py): a dict tag -> dict id -> value
          shared between instances, and a per-instance counter [cursor] starting at 0 that is the
          next id (one counter for all tags).  read of a missing id raises ValueError.
@@ -76,7 +77,6 @@ Inductive res :=
 | RCount (n : N)                            (* update: number of rows updated *)
 | RNone                                     (* None *)
 | RBytes (b : blob)                         (* read: the value *)
-| RRow (cols : list blob)                   (* read: a row tuple *)
 | RDict (d : list (N * blob))               (* read_all(tag) *)
 | RDictAll (g : ddict)                      (* read_all() *)
 | RErr (e : err)
@@ -128,7 +128,7 @@ Definition sq_step (T : table) (o : op) : res * table :=
     (RNone, filter (fun r => negb (where_id_tag i t r)) T)
   | Read t i =>
     (match filter (where_id_tag i t) T with
-     | r :: _ => RRow [row_blob r]         (* `for row in fetchall(): return row` *)
+     | r :: _ => RBytes (row_blob r)       (* `for row in rows: return row[0]` *)
      | [] => RNone
      end, T)
   | ReadAll (Some t) =>
@@ -221,14 +221,11 @@ Definition abs_sq (T : table) : smap := map (fun r => ((row_tag r, row_id r), ro
 Definition abs_dd (g : ddict) : smap :=
   flat_map (fun e => map (fun ib => ((fst e, fst ib), snd ib)) (snd e)) g.
 
-(* the one place where SqliteStorage's answers have a different Python type: read's 1-tuple *)
-Definition unrow (r : res) : res := match r with RRow [b] => RBytes b | _ => r end.
 (* MockStorage.read of a missing id raises instead of returning None *)
 Definition unraise (o : op) (r : res) : res :=
   match o, r with Read _ _, RErr EValue => RNone | _, _ => r end.
 
 Definition view_raw (_ : op) (r : res) : res := r.
-Definition view_sq (_ : op) (r : res) : res := unrow r.
 
 (* calls paired with the (viewed) results *)
 Definition history (view : op -> res -> res) (ops : list op) (rs : list res) : list (op * res) :=
@@ -296,7 +293,6 @@ Definition sx_res (r : res) : sx :=
   | RCount n => L [A 1; A n]
   | RNone => L [A 2]
   | RBytes b => L [A 3; sx_str b]
-  | RRow cols => L [A 4; L (map sx_str cols)]
   | RDict d => L [A 5; sx_dict d]
   | RDictAll g => L [A 6; L (map (fun e => L [sx_str (fst e); sx_dict (snd e)]) g)]
   | RErr EValue => L [A 7; A 0]
